@@ -1,6 +1,8 @@
 (* Extraction of the CacheGuard model runner.  Directives in effect are exactly those
-   of ExtrOcamlBasic and ExtrOcamlString; numbers stay extracted inductives. *)
+   of ExtrOcamlBasic and ExtrOcamlString; numbers stay extracted inductives.
+   The runner's table is CacheGuardRRun.entries = CacheGuardRun.entries (the resolver-free model, unchanged)
+   followed by cg.runR / cg.batchR (the model with a role resolver per guard, CacheGuardR.v). *)
 From Coq Require Extraction ExtrOcamlBasic ExtrOcamlString.
-From Rbacx Require Import CacheGuardRun.
+From Rbacx Require Import CacheGuardRun CacheGuardRRun.
 Extraction Language OCaml.
-Extraction "../ocaml/gen/cacheguard.ml" CacheGuardRun.run_line.
+Extraction "../ocaml/gen/cacheguard.ml" CacheGuardRRun.run_line.
